@@ -2,12 +2,15 @@
 
 oracle (no Lean involved), five families:
   paths        generated template sets are run, in one worker subprocess per hash seed (0, 1, 2 and one seeded "random"
-               value), through 9 constructions - string with uri+filename / bare string / file in memory via a lookup /
+               value), through 11 constructions - string with uri+filename / bare string / the file's BYTES given as text / file in
+               memory via a lookup /
                file without uri / module_directory / modulename_callable / ModuleTemplate over the written module file /
-               ModuleTemplate over `Template.code` written out by hand / the module directory re-loaded by a FRESH
-               process - each through render, render_unicode, render_context, get_def(n).render() for every def, and
+               ModuleTemplate over `Template.code` written out by hand, with the template source as str and as bytes /
+               the module directory re-loaded by a FRESH process - each through render, render_unicode, render_context, get_def(n).render() for every def, and
                (default options, string data) the mako-render command, in-process cmdline() and the real executable
-               (11 path labels in all).  Outputs, `source`, `code` (modulo CODE_MAY_DIFFER), has_def/list_defs/get_def
+               (13 path labels in all).  Besides the grammar-generated sets there are encoded sources: utf-8 / utf-8
+               with BOM / latin-1 / cp1252, declared by input_encoding or a coding comment, whose first character has the
+               UTF-8 lead byte 0xEF (U+F000-U+FFFF, also BOM + U+FEFF) or is one of the BOM's bytes in a single-byte encoding.  Outputs, `source`, `code` (modulo CODE_MAY_DIFFER), has_def/list_defs/get_def
                must agree between all paths and all seeds; ground truth on the reference path: list_defs = the planted
                defs, get_def of a name without has_def raises, get_def(n).render(**kw) = render_context with the named
                keyword arguments spelled out, get_def of a def that reads local/self/parent/next in an INHERITING
@@ -28,6 +31,7 @@ oracle (no Lean involved), five families:
 corr   : the Lean models of lean/MakoModel/Paths8 against the real code, op-level: module_id on every code point and
          on random URIs, Template.__init__'s path selection, _kwargs_for_callable on random signatures, the ModuleInfo
          registry on random register/collect/read scripts, ModuleInfo.code over scripted rewrites of the module file,
+         ModuleInfo.source over byte strings (every string of <= 3 bytes over the BOM's bytes and two others + random),
          the directory probe order of get_template, has_def/list_defs, the module preamble, Context._locals key order,
          and - per hash seed - every declaration block the real generator emitted (recorded by wrapping
          write_variable_declares in the worker): the emitted order must be the model's `emittedBlock` (sorted
@@ -52,8 +56,8 @@ RULE = ("template sets = a main template built from self-contained items (text i
         "to auxiliary templates incl. several importing namespaces that supply the same name, an inheriting template whose "
         "def reads local/self/parent/next (bracketed by markers: ground truth for get_def().render()), a context.keys() "
         "probe inside a def) + data + compile options (strict_undefined, "
-        "default_filters, buffer_filters, imports, output_encoding); each set x 9 construction paths (+ mako-render twice = "
-        "11 path labels) x 3-4 render calls x get_def per def x 4 hash seeds; plus, per seed, 30 (thorough 300) lookups "
+        "default_filters, buffer_filters, imports, output_encoding); each set x 11 construction paths (+ mako-render twice = "
+        "13 path labels) x 3-4 render calls x get_def per def x 4 hash seeds; plus, per seed, 30 (thorough 300) lookups "
         "over 2-4 directories with shadowed URIs and 4 module writers x 2 in-place regeneration scenarios; plus, in the "
         "main process, 60 (800) edit/re-get/second-lookup histories and 40 (600) sets of URIs that differ only in "
         "non-word characters in one lookup; non-trivial = the main template has >= 2 declared names in some render "
@@ -308,6 +312,10 @@ def gen_enc_case(rng, cid):
                             ("cp1252", "comment"), ("utf-8", "input_encoding")])
     if enc_ == "utf-8":
         first = rng.choice(FIRST_EF + FIRST_EF + FIRST_L1 + FIRST_PLAIN)
+        if first == "\ufeff" and how != "bom":
+            # the utf-8 bytes of a leading U+FEFF ARE the byte order mark: only meaningful after a real BOM
+            # (BOM + U+FEFF: exactly one of the two goes)
+            first = "\uff08"
         body = rng.choice(["hello ${v1} \u65e5\u672c", " \uff08x\uff09 ${v2 | h}", ""])
     else:
         first = rng.choice(FIRST_L1 + FIRST_L1 + FIRST_PLAIN)
